@@ -33,6 +33,7 @@ func (c *consumer) Close() (err error) {
 		// we need to wait for any pending offsets, so lock
 		verifAt("consumer.close.lock", c, 0)
 		c.mutex.Lock()
+		verifAt("consumer.close.locked", c, 0)
 		defer c.mutex.Unlock()
 
 		// all resources should be freed after this call - we will close the done channel
@@ -73,6 +74,7 @@ func (c *consumer) Get(ctx context.Context) (interface{}, error) {
 
 	verifAt("consumer.get.lock", c, 0)
 	c.mutex.Lock()
+	verifAt("consumer.get.locked", c, 0)
 	defer c.mutex.Unlock()
 
 	ctx, cancel := context.WithCancel(ctx)
@@ -111,6 +113,7 @@ func (c *consumer) Get(ctx context.Context) (interface{}, error) {
 func (c *consumer) Commit() error {
 	verifAt("consumer.commit.lock", c, 0)
 	c.mutex.Lock()
+	verifAt("consumer.commit.locked", c, 0)
 	defer c.mutex.Unlock()
 
 	if c.offset == 0 {
@@ -131,6 +134,7 @@ func (c *consumer) Commit() error {
 func (c *consumer) Rollback() error {
 	verifAt("consumer.rollback.lock", c, 0)
 	c.mutex.Lock()
+	verifAt("consumer.rollback.locked", c, 0)
 	defer c.mutex.Unlock()
 
 	if c.offset == 0 {
